@@ -7,7 +7,6 @@ FILTER_EXC = {
     ("hwloc_topology_alloc_group_object", "HWLOC_OBJ_GROUP"): "allocation only: hwloc_topology_insert_group_object tests type_filter[GROUP] == KEEP_NONE before inserting",
     ("hwloc__groups_by_distances", "HWLOC_OBJ_GROUP"): "reached only when topology->grouping is set; hwloc_internal_distances_prepare clears it when Group is KEEP_NONE",
     ("hwloc_pcidisc_add_hostbridges", "HWLOC_OBJ_BRIDGE"): "the only caller tests type_filter[BRIDGE] != KEEP_NONE through its local copy bfilter",
-    ("hwloc_synthetic_insert_attached", "attached->attr.type"): "asserted to be NUMANODE (unfilterable) just above",
     ("hwloc__xml_import_object", "HWLOC_OBJ_TYPE_MAX"): "placeholder type: the real type is read from the attributes and filtered before insertion by hwloc__xml_import_object itself",
     ("hwloc_look_pci", "type"): "type is PCI_DEVICE or BRIDGE, each tested just above (subtype-important / type filter)",
     ("hwloc_linux_knl_add_cluster", "HWLOC_OBJ_L3CACHE"): "decided separately by evaluation (knl-cache obligations below): created only when hwdata.mcdram_cache_size > 0, which the KNL quirk zeroes when the cache type in use is filtered out",
